@@ -59,6 +59,7 @@ pub enum Engine {
     Crash,
     Fault,
     Corrupt,
+    Compat,
 }
 
 #[derive(Default, Clone, Serialize)]
@@ -173,6 +174,9 @@ pub fn execute(plan: &Plan, engine: Engine, crash_seed: u64, images: usize, only
     }
     if engine == Engine::Corrupt {
         return crate::corrupt::execute_corrupt(plan, crash_seed, images, only);
+    }
+    if engine == Engine::Compat {
+        return crate::compat::execute_compat(plan, crash_seed, images, only);
     }
     let mut ex = Exec::new(plan.cfg.clone(), Mode::Strict);
     ex.keep_lifetimes = engine == Engine::Crash;
@@ -357,6 +361,7 @@ pub fn engine_of(name: &str) -> Engine {
         "crash" => Engine::Crash,
         "fault" => Engine::Fault,
         "corrupt" => Engine::Corrupt,
+        "compat" => Engine::Compat,
         _ => Engine::Conf,
     }
 }
@@ -367,6 +372,7 @@ pub fn engine_name(e: Engine) -> &'static str {
         Engine::Crash => "crash",
         Engine::Fault => "fault",
         Engine::Corrupt => "corrupt",
+        Engine::Compat => "compat",
     }
 }
 
@@ -624,7 +630,11 @@ pub fn explore(o: &Opts) -> i32 {
         let path = format!("{dir}/{}-{}-{:08x}.json", min.expect.prop, o.seed, h as u32);
         std::fs::write(&path, serde_json::to_string_pretty(&min).unwrap()).unwrap();
         // verify that the replay reproduces in this process (the driver re-checks in a fresh one)
-        let again = execute(&min.plan, o.engine, 0, 0, if min.extra == Extra::None { None } else { Some(&min.extra) });
+        let again = if min.extra == Extra::None {
+            execute(&min.plan, o.engine, mix(min.seed, min.run) ^ 0x5eed, min.images, None)
+        } else {
+            execute(&min.plan, o.engine, 0, 0, Some(&min.extra))
+        };
         let ok = again.viol.as_ref().is_some_and(|(v2, _)| same_class(v2, &min.expect));
         println!("violation: run={i} property={} tag={} detail={}", min.expect.prop, min.expect.tag, min.expect.detail);
         if ok {
